@@ -290,6 +290,16 @@ def oracle(c, r):
                 exp_lo = lo + digit * (1 / n) * w
                 if not close(unhex(smp[nm][0]), exp_lo):
                     return "sample %d is not the fit of cell %d (prior %s lower %r expected %r)" % (idx, idx, nm, unhex(smp[nm][0]), exp_lo)
+        # reported physical cell limits are consistent with the cells fitted
+        if r["native_shape"] != [n] * d:
+            return "log_likelihoods().native has shape %s" % r["native_shape"]
+        for idx, smp in enumerate(r["samples"]):
+            for j, nm in enumerate(names):
+                lo_, hi_ = unhex(smp[nm][0]), unhex(smp[nm][1])
+                pl, pu, pc = unhex(r["physical_lower"][idx][j]), unhex(r["physical_upper"][idx][j]), unhex(r["physical_centres"][idx][j])
+                if not (close(pl, lo_) and close(pu, hi_) and close(pc, (lo_ + hi_) / 2)):
+                    return ("reported physical limits/centre of cell %d (%r, %r, %r) are not those of the cell fitted (%r, %r)"
+                            % (idx, pl, pu, pc, lo_, hi_))
         rows = sorted(r["csv"])
         if [x[0] for x in rows] != list(range(n ** d)):
             return "results.csv does not list every cell once"
